@@ -464,6 +464,9 @@ class CtlSim:
             return
         self.stopped = True
         self.stop_handle = self.loop.handles_run
+        for c in self.clients.values():
+            if getattr(c, "lines_at_stop", None) is None:
+                c.lines_at_stop = len(c.lines)
         self.serving_task.cancel()
 
     def _op_cli(self, st):
@@ -747,6 +750,14 @@ class CtlSim:
                 elif len(replies) == len(lines):
                     continue
             n_lines = len(lines)
+            at_stop = getattr(c, "lines_at_stop", None)
+            if at_stop is not None and at_stop < n_lines:
+                # the serving task was cancelled: a session answers what it was sent before that (waiting commands when
+                # their wait is over) and at most one more line; whether later lines are still read is not specified
+                if len(replies) > at_stop + 1:
+                    self.violate("C18", "too_many_replies", f"client {c.label}: {len(replies)} replies, {at_stop} lines before the stop")
+                lines = lines[:max(at_stop, min(len(replies), at_stop + 1))]
+                n_lines = len(lines)
             if c.gone:
                 if len(replies) > n_lines:
                     self.violate("C18", "too_many_replies", f"client {c.label}: {len(replies)} replies for {n_lines} lines")
@@ -776,7 +787,18 @@ class CtlSim:
         return live > 0 or self.pool.num_running > 0 or self.pool.is_full
 
     def pool_closed(self):
-        """Closed == some gather-and-close has been answered with ok (or a direct call returned)."""
+        """Closed == some gather-and-close has been answered with ok, or (asked through the public API, used by the final
+        checks only) a spawn request that is invalid anyway is refused with PoolIsClosed."""
+        from asyncio_taskpool.exceptions import PoolIsClosed
+        try:
+            if hasattr(self.pool, "start"):
+                self.pool.start(0)
+            else:
+                self.pool.map(ctlworkers.work, [], num_concurrent=0)
+        except PoolIsClosed:
+            return True
+        except Exception:
+            pass
         for c in self.clients.values():
             if c.kind != "raw" or c.ct is None:
                 continue
